@@ -1,0 +1,516 @@
+// SPDX-License-Identifier: Apache-2.0
+//! Verification-only seams (cargo feature `echo_verif`, off by default).
+//!
+//! Nothing in this module is compiled unless the feature is enabled. It only
+//! *opens doors* for an out-of-tree runtime-monitoring harness:
+//!
+//! - thin public wrappers around crate-private functions (state diff, state
+//!   root, columnar accumulator root, scheduler queues, op write targets,
+//!   retained-provenance codec),
+//! - thread-local failpoints that production code consults at a few guarded
+//!   call sites, and
+//! - a scripted/jittered claim order for the parallel work queue.
+//!
+//! No monitor or oracle lives here; histories are recorded by the harness at
+//! the public API boundary.
+#![allow(
+    missing_docs,
+    clippy::all,
+    clippy::pedantic,
+    clippy::nursery,
+    clippy::unwrap_used,
+    clippy::expect_used,
+    clippy::panic
+)]
+
+use crate::ident::{Hash, NodeKey, WarpId};
+use crate::tick_patch::WarpOp;
+use crate::warp_state::{WarpInstance, WarpState};
+
+// ---------------------------------------------------------------------------
+// H3/H4/H5: read-only doors
+// ---------------------------------------------------------------------------
+
+/// Crate-private `tick_patch::diff_state`, verbatim.
+#[must_use]
+pub fn diff_state(before: &WarpState, after: &WarpState) -> Vec<WarpOp> {
+    crate::tick_patch::diff_state(before, after)
+}
+
+/// Crate-private `snapshot::compute_state_root`, verbatim.
+#[must_use]
+pub fn state_root(state: &WarpState, root: &NodeKey) -> Hash {
+    crate::snapshot::compute_state_root(state, root)
+}
+
+/// State root as computed by the columnar `SnapshotAccumulator` after applying
+/// `ops` on top of `state` (the path `delta_validate` compares inside commit).
+#[must_use]
+pub fn accum_state_root(state: &WarpState, root: &NodeKey, ops: Vec<WarpOp>) -> Hash {
+    let mut acc = crate::snapshot_accum::SnapshotAccumulator::from_warp_state(state);
+    acc.apply_ops(ops);
+    acc.build(root, [0u8; 32], 0).state_root
+}
+
+/// Instance ids of a state in canonical order.
+#[must_use]
+pub fn warp_ids(state: &WarpState) -> Vec<WarpId> {
+    state.iter_instances().map(|(id, _)| *id).collect()
+}
+
+/// Instance records of a state in canonical order.
+#[must_use]
+pub fn instances(state: &WarpState) -> Vec<WarpInstance> {
+    state.iter_instances().map(|(_, i)| i.clone()).collect()
+}
+
+/// Store ids of a state in canonical order (may differ from `warp_ids` only if
+/// the two maps ever desynchronise).
+#[must_use]
+pub fn store_ids(state: &WarpState) -> Vec<WarpId> {
+    state.iter_stores().map(|(id, _)| *id).collect()
+}
+
+/// The engine's blocker-attribution predicate (`engine_impl::footprints_conflict`).
+#[must_use]
+pub fn footprints_conflict(a: &crate::footprint::Footprint, b: &crate::footprint::Footprint) -> bool {
+    crate::engine_impl::footprints_conflict(a, b)
+}
+
+// ---------------------------------------------------------------------------
+// H7: attributed write targets of an op
+// ---------------------------------------------------------------------------
+
+/// Public view of `footprint_guard::OpTargets`.
+#[derive(Debug, Clone, PartialEq, Eq)]
+pub struct OpTargetsView {
+    pub nodes: Vec<crate::ident::NodeId>,
+    pub edges: Vec<crate::ident::EdgeId>,
+    pub attachments: Vec<crate::attachment::AttachmentKey>,
+    pub is_instance_op: bool,
+    pub op_warp: Option<WarpId>,
+    pub kind_str: &'static str,
+}
+
+/// Attributed write targets of `op` (only exists where enforcement is compiled in).
+#[cfg(any(debug_assertions, feature = "footprint_enforce_release"))]
+#[cfg(not(feature = "unsafe_graph"))]
+#[must_use]
+pub fn op_write_targets(op: &WarpOp) -> OpTargetsView {
+    let t = crate::footprint_guard::op_write_targets(op);
+    OpTargetsView {
+        nodes: t.nodes,
+        edges: t.edges,
+        attachments: t.attachments,
+        is_instance_op: t.is_instance_op,
+        op_warp: t.op_warp,
+        kind_str: t.kind_str,
+    }
+}
+
+/// `true` when footprint enforcement is compiled into this build.
+#[must_use]
+pub const fn enforcement_compiled() -> bool {
+    cfg!(all(
+        any(debug_assertions, feature = "footprint_enforce_release"),
+        not(feature = "unsafe_graph")
+    ))
+}
+
+// ---------------------------------------------------------------------------
+// H9: retained-provenance codec
+// ---------------------------------------------------------------------------
+
+pub mod provenance_codec {
+    use crate::provenance_codec::RetainedProvenanceError;
+    use crate::provenance_store::ProvenanceEntry;
+
+    pub fn encode_local_commit_v1(
+        entry: &ProvenanceEntry,
+    ) -> Result<Vec<u8>, RetainedProvenanceError> {
+        crate::provenance_codec::encode_local_commit_v1(entry)
+    }
+
+    pub fn decode_local_commit_v1(bytes: &[u8]) -> Result<ProvenanceEntry, RetainedProvenanceError> {
+        crate::provenance_codec::decode_local_commit_v1(bytes)
+    }
+}
+
+// ---------------------------------------------------------------------------
+// H1: raw-key scheduler access
+// ---------------------------------------------------------------------------
+
+pub mod sched {
+    use std::sync::Arc;
+
+    use crate::footprint::Footprint;
+    use crate::ident::{CompactRuleId, Hash, NodeKey};
+    use crate::scheduler::{DeterministicScheduler, PendingRewrite, RewritePhase, SchedulerKind};
+    use crate::tick_delta::OpOrigin;
+    use crate::tx::TxId;
+
+    /// A drained candidate (opaque wrapper around the crate-private pending rewrite).
+    #[derive(Debug, Clone)]
+    pub struct Cand(PendingRewrite);
+
+    impl Cand {
+        #[must_use]
+        pub fn scope_hash(&self) -> Hash {
+            self.0.scope_hash
+        }
+        #[must_use]
+        pub fn compact_rule(&self) -> u32 {
+            self.0.compact_rule.0
+        }
+        #[must_use]
+        pub fn rule_id(&self) -> Hash {
+            self.0.rule_id
+        }
+        #[must_use]
+        pub fn footprint(&self) -> &Footprint {
+            &self.0.footprint
+        }
+        /// Caller-chosen tag given at enqueue (identifies which enqueue survived dedupe).
+        #[must_use]
+        pub fn tag(&self) -> u64 {
+            self.0.origin.intent_id
+        }
+    }
+
+    /// One scheduler instance bound to one transaction id.
+    #[derive(Debug)]
+    pub struct Sched {
+        inner: DeterministicScheduler,
+        tx: TxId,
+    }
+
+    impl Sched {
+        #[must_use]
+        pub fn new(kind: SchedulerKind) -> Self {
+            Self {
+                inner: DeterministicScheduler::new(
+                    kind,
+                    Arc::new(crate::telemetry::NullTelemetrySink),
+                ),
+                tx: TxId::from_raw(1),
+            }
+        }
+
+        pub fn enqueue(
+            &mut self,
+            scope_hash: Hash,
+            compact_rule: u32,
+            rule_id: Hash,
+            scope: NodeKey,
+            footprint: Footprint,
+            tag: u64,
+        ) {
+            self.inner.enqueue(
+                self.tx,
+                PendingRewrite {
+                    rule_id,
+                    compact_rule: CompactRuleId(compact_rule),
+                    scope_hash,
+                    scope,
+                    footprint,
+                    phase: RewritePhase::Matched,
+                    origin: OpOrigin {
+                        intent_id: tag,
+                        rule_id: compact_rule,
+                        match_ix: 0,
+                        op_ix: 0,
+                    },
+                },
+            );
+        }
+
+        pub fn drain(&mut self) -> Vec<Cand> {
+            self.inner.drain_for_tx(self.tx).into_iter().map(Cand).collect()
+        }
+
+        pub fn reserve(&mut self, cand: &mut Cand) -> bool {
+            self.inner.reserve(self.tx, &mut cand.0)
+        }
+
+        pub fn finalize(&mut self) {
+            self.inner.finalize_tx(self.tx);
+        }
+    }
+}
+
+// ---------------------------------------------------------------------------
+// H8: failpoints (thread-local: coordinator / settlement code runs on the
+// caller's thread, so harness threads do not interfere with each other)
+// ---------------------------------------------------------------------------
+
+pub mod failpoint {
+    use std::cell::RefCell;
+    use std::collections::BTreeMap;
+
+    /// What an armed failpoint does when it fires.
+    #[derive(Debug, Clone, Copy, PartialEq, Eq)]
+    pub enum Action {
+        /// The call site returns its typed error.
+        Error,
+        /// The call site panics with a recognisable payload.
+        Panic,
+    }
+
+    #[derive(Default)]
+    struct State {
+        /// name -> (hits to skip before firing, action, one_shot)
+        armed: BTreeMap<String, (u64, Action)>,
+        hits: BTreeMap<String, u64>,
+        fired: BTreeMap<String, u64>,
+    }
+
+    thread_local! {
+        static STATE: RefCell<State> = RefCell::new(State::default());
+    }
+
+    /// Arm `name`: skip the first `skip` hits, then fire once with `action`.
+    pub fn arm(name: &str, skip: u64, action: Action) {
+        STATE.with(|s| {
+            s.borrow_mut().armed.insert(name.to_owned(), (skip, action));
+        });
+    }
+
+    /// Disarm everything and clear counters.
+    pub fn reset() {
+        STATE.with(|s| *s.borrow_mut() = State::default());
+    }
+
+    /// Number of times the call site `name` was reached since the last reset.
+    #[must_use]
+    pub fn hits(name: &str) -> u64 {
+        STATE.with(|s| s.borrow().hits.get(name).copied().unwrap_or(0))
+    }
+
+    /// Number of times `name` actually fired since the last reset.
+    #[must_use]
+    pub fn fired(name: &str) -> u64 {
+        STATE.with(|s| s.borrow().fired.get(name).copied().unwrap_or(0))
+    }
+
+    /// All call-site names reached since the last reset, with hit counts.
+    #[must_use]
+    pub fn all_hits() -> Vec<(String, u64)> {
+        STATE.with(|s| s.borrow().hits.iter().map(|(k, v)| (k.clone(), *v)).collect())
+    }
+
+    /// Called from guarded production call sites. Returns `true` when the call
+    /// site must fail with its typed error; panics when armed with `Panic`.
+    #[must_use]
+    pub fn hit(name: &str) -> bool {
+        let action = STATE.with(|s| {
+            let mut s = s.borrow_mut();
+            *s.hits.entry(name.to_owned()).or_insert(0) += 1;
+            let fire = match s.armed.get_mut(name) {
+                None => None,
+                Some((skip, action)) => {
+                    if *skip == 0 {
+                        Some(*action)
+                    } else {
+                        *skip -= 1;
+                        None
+                    }
+                }
+            };
+            if fire.is_some() {
+                s.armed.remove(name);
+                *s.fired.entry(name.to_owned()).or_insert(0) += 1;
+            }
+            fire
+        });
+        match action {
+            None => false,
+            Some(Action::Error) => true,
+            Some(Action::Panic) => panic!("echo_verif failpoint panic: {name}"),
+        }
+    }
+}
+
+// ---------------------------------------------------------------------------
+// H2: scripted / jittered claim order for the parallel work queues
+// ---------------------------------------------------------------------------
+
+pub mod claim {
+    use std::sync::Mutex;
+
+    /// How claims are steered.
+    #[derive(Debug, Clone)]
+    pub enum Mode {
+        /// Unit `i` goes to worker `(index / w^i) % w`, `w` = actual worker count.
+        AssignmentIndex(u128),
+        /// Unit `i` goes to worker `map[i % map.len()] % w`.
+        Explicit(Vec<usize>),
+        /// Real atomic counter decides; a pseudo-random yield/sleep/spin is
+        /// injected between claims (where real suspension can occur).
+        Jitter(u64),
+        /// Real atomic counter decides; only record what happened.
+        Observe,
+    }
+
+    /// One invocation of a work queue as observed by the hook.
+    #[derive(Debug, Clone, Default, PartialEq, Eq)]
+    pub struct Run {
+        pub n_units: usize,
+        pub n_workers: usize,
+        /// `(worker, unit)` in the order claims were granted.
+        pub claims: Vec<(usize, usize)>,
+    }
+
+    #[derive(Default)]
+    struct State {
+        mode: Option<Mode>,
+        cursor: Vec<usize>,
+        runs: Vec<Run>,
+    }
+
+    static STATE: Mutex<Option<State>> = Mutex::new(None);
+
+    fn with<R>(f: impl FnOnce(&mut State) -> R) -> R {
+        let mut g = STATE.lock().unwrap_or_else(std::sync::PoisonError::into_inner);
+        f(g.get_or_insert_with(State::default))
+    }
+
+    /// Install a mode (process-global). Clears the recorded runs.
+    pub fn install(mode: Mode) {
+        with(|s| {
+            s.mode = Some(mode);
+            s.runs.clear();
+            s.cursor.clear();
+        });
+    }
+
+    /// Remove any mode; the queue behaves exactly as without the feature.
+    pub fn clear() {
+        with(|s| {
+            s.mode = None;
+            s.cursor.clear();
+        });
+    }
+
+    /// Take the runs recorded since the last `install`/`take_runs`.
+    #[must_use]
+    pub fn take_runs() -> Vec<Run> {
+        with(|s| std::mem::take(&mut s.runs))
+    }
+
+    /// Call site: a work queue starts with `n_units` units on `n_workers` workers.
+    pub fn begin(n_units: usize, n_workers: usize) {
+        with(|s| {
+            if s.mode.is_some() {
+                s.cursor = vec![0; n_workers];
+                s.runs.push(Run {
+                    n_units,
+                    n_workers,
+                    claims: Vec::new(),
+                });
+            }
+        });
+    }
+
+    fn assigned_worker(mode: &Mode, unit: usize, w: usize) -> usize {
+        match mode {
+            Mode::AssignmentIndex(index) => {
+                let mut x = *index;
+                for _ in 0..unit {
+                    x /= w as u128;
+                }
+                (x % w as u128) as usize
+            }
+            Mode::Explicit(map) => {
+                if map.is_empty() {
+                    0
+                } else {
+                    map[unit % map.len()] % w
+                }
+            }
+            Mode::Jitter(_) | Mode::Observe => 0,
+        }
+    }
+
+    fn splitmix(mut x: u64) -> u64 {
+        x = x.wrapping_add(0x9E37_79B9_7F4A_7C15);
+        let mut z = x;
+        z = (z ^ (z >> 30)).wrapping_mul(0xBF58_476D_1CE4_E5B9);
+        z = (z ^ (z >> 27)).wrapping_mul(0x94D0_49BB_1331_11EB);
+        z ^ (z >> 31)
+    }
+
+    /// Call site: worker `worker` obtained `real_idx` from the atomic counter.
+    /// Returns the unit index the worker must process (`>= n_units` means stop).
+    #[must_use]
+    pub fn scripted_claim(worker: usize, real_idx: usize, n_units: usize, n_workers: usize) -> usize {
+        enum Todo {
+            Return(usize),
+            Jitter(u64),
+        }
+        let todo = with(|s| {
+            let Some(mode) = s.mode.clone() else {
+                return Todo::Return(real_idx);
+            };
+            match mode {
+                Mode::Jitter(seed) => Todo::Jitter(seed),
+                Mode::Observe => {
+                    if real_idx < n_units {
+                        if let Some(run) = s.runs.last_mut() {
+                            run.claims.push((worker, real_idx));
+                        }
+                    }
+                    Todo::Return(real_idx)
+                }
+                Mode::AssignmentIndex(_) | Mode::Explicit(_) => {
+                    if s.cursor.len() != n_workers {
+                        s.cursor = vec![0; n_workers];
+                    }
+                    let mut u = s.cursor[worker];
+                    while u < n_units && assigned_worker(&mode, u, n_workers) != worker {
+                        u += 1;
+                    }
+                    if u < n_units {
+                        s.cursor[worker] = u + 1;
+                        if let Some(run) = s.runs.last_mut() {
+                            run.claims.push((worker, u));
+                        }
+                        Todo::Return(u)
+                    } else {
+                        s.cursor[worker] = n_units;
+                        Todo::Return(n_units)
+                    }
+                }
+            }
+        });
+        match todo {
+            Todo::Return(u) => u,
+            Todo::Jitter(seed) => {
+                // Delay *after* the real claim and before the unit runs; the
+                // counter has already moved, so other workers overtake here.
+                let r = splitmix(seed ^ ((worker as u64) << 32) ^ real_idx as u64);
+                match r % 5 {
+                    0 => {}
+                    1 => std::thread::yield_now(),
+                    2 => std::thread::sleep(std::time::Duration::from_micros(r >> 8 & 63)),
+                    3 => {
+                        for _ in 0..(r >> 8 & 1023) {
+                            std::hint::spin_loop();
+                        }
+                    }
+                    _ => {
+                        std::thread::yield_now();
+                        std::thread::yield_now();
+                    }
+                }
+                if real_idx < n_units {
+                    with(|s| {
+                        if let Some(run) = s.runs.last_mut() {
+                            run.claims.push((worker, real_idx));
+                        }
+                    });
+                }
+                real_idx
+            }
+        }
+    }
+}
